@@ -50,7 +50,7 @@ type decWorld struct{}
 func (decWorld) Name() string { return "W-DEC" }
 
 var decFaultKinds = []string{"net.bitflip", "net.bytesub", "net.multi", "net.truncate", "net.extend", "net.leninflate", "net.concat",
-	"byz.tree", "byz.tree", "json.member", "json.member", "net.nest", "net.pad", "net.hdr", "net.splice", "byz.members", "byz.profile", "byz.elements"}
+	"byz.tree", "byz.tree", "json.member", "json.member", "net.nest", "net.pad", "net.hdr", "net.splice", "byz.members", "byz.profile", "byz.elements", "byz.retype"}
 
 var decMsgKinds = []string{"cose", "cose", "cbor", "cbor", "json", "json", "swcbor", "swjson", "shapecbor", "shapejson"}
 
@@ -87,6 +87,8 @@ var decPreludes = func() []decPrelude {
 		out = append(out, decPrelude{k, "p2", "tagsweep", -1})
 	}
 	out = append(out, decPrelude{"cose", "p1", "tagsweep", -1})
+	// a tag of every width in front of every node of the claims tree
+	out = append(out, decPrelude{"cbor", "p2", "nodetagsweep", -1}, decPrelude{"cbor", "xp2", "nodetagsweep", -1})
 	// a sub-module chain of every depth the CBOR decoder admits
 	out = append(out, decPrelude{"shapecbor", "p2", "depthsweep", 9}, decPrelude{"shapejson", "p2", "depthsweep", 9})
 	for sh := 0; sh < nShapes; sh++ {
@@ -171,6 +173,11 @@ func (decWorld) Gen(prop, tier string, idx int, r *Rng) *Trace {
 				var fo Op
 				k := kinds[r.Intn(len(kinds))]
 				switch k {
+				case "byz.retype":
+					fo = Op{K: "fault", F: k, A: r.Intn(1 << 14), B: r.Intn(retypeVariants)}
+					if r.Chance(1, 2) {
+						fo.B = retypeVariants - 1 // a tag in front of a node
+					}
 				case "byz.tree", "json.member":
 					fo = Op{K: "fault", F: k, A: r.Intn(96), B: r.Intn(60)}
 					if r.Chance(1, 3) {
@@ -321,6 +328,12 @@ func applyDecFault(s *decSlot, op Op, donor []byte, cfg *DecCfg) bool {
 			nb, fired = applyJSONFault(target, op.A, op.B)
 		} else {
 			nb, fired = applyTreeFault(target, op.A, op.B)
+		}
+	case "byz.retype":
+		if isJSONKind(s.kind) {
+			nb, fired = applyJSONFault(target, op.A, len(jsonSubst)+3) // every member repeated
+		} else {
+			nb, fired = applyRetypeFault(target, op.A, op.B)
 		}
 	case "net.nest":
 		depth := op.A
@@ -1040,6 +1053,35 @@ func (decWorld) Exec(prop string, t *Trace) *Result {
 			res.Faults["net.hdr"] += n
 			res.Probes["tagsweep_messages"] += n
 			shape += "tagsweep" + s.kind
+		case "nodetagsweep":
+			s := slots[op.T]
+			if s == nil || isJSONKind(s.kind) {
+				break
+			}
+			var hs []cborHead
+			if end, err := walkItem(s.cur, 0, 0, &hs); err != nil || end != len(s.cur) {
+				break
+			}
+			n := 0
+			for node := range hs {
+				if journal {
+					fmt.Fprintf(os.Stderr, "AT %d\n", i)
+				}
+				for tv := 0; tv < 7*5; tv++ {
+					// node + len(hs) * (tag index + 7 * width index): see applyRetypeFault
+					msg, ok := applyRetypeFault(s.cur, node+len(hs)*tv, retypeVariants-1)
+					if !ok {
+						continue
+					}
+					if receive(res, prop, i, msg, st, bud) {
+						nontrivial++
+					}
+					n++
+				}
+			}
+			res.Faults["byz.retype"] += n
+			res.Probes["nodetagsweep_messages"] += n
+			shape += "nodetagsweep" + s.kind
 		case "depthsweep":
 			s := slots[op.T]
 			if s == nil {
